@@ -252,6 +252,47 @@ func NameOfCode(v int64) string {
 	return s
 }
 
+// NameOfCodeVar names the value of code variable name under a model. When the
+// model also fixes the identifier's length ("(clen name)", which the code under
+// test can observe through len()) to a small value, a fresh name of exactly
+// that length is bound to the value, so that a native replay sees what the
+// path assumed.
+func NameOfCodeVar(name string, v int64, model map[string]string) string {
+	want := -1
+	if lv, ok := model["(clen "+name+")"]; ok {
+		if n, ok := ParseIntValue(lv); ok && n >= 1 && n <= 5 {
+			want = int(n)
+		}
+	}
+	litMu.Lock()
+	if s, ok := litNames[v]; ok {
+		litMu.Unlock()
+		return s
+	}
+	if want > 0 && v >= 0 {
+		const first = "ZQXJKVWYHGFBDCMNPRSTLAEIOUzqxjkvwyhgfbdcmnprstlaeiou"
+		const rest = "0123456789abcdefghijklmnopqrstuvwxyzABCDEFGHIJKLMNOPQRSTUVWXYZ"
+		for try := int64(0); try < 4000; try++ {
+			x := v + try*7919
+			b := []byte{first[int(x%int64(len(first)))]}
+			x /= int64(len(first))
+			for len(b) < want {
+				b = append(b, rest[int(x%int64(len(rest)))])
+				x /= int64(len(rest))
+			}
+			s := string(b)
+			if _, used := litCodes[s]; used || reservedWords[s] {
+				continue
+			}
+			litNames[v], litCodes[s] = s, v
+			litMu.Unlock()
+			return s
+		}
+	}
+	litMu.Unlock()
+	return NameOfCode(v)
+}
+
 // NewEnumCode declares an Int-coded atom (class 'T') that ranges over an
 // explicit set of literals.
 func (c *Ctx) NewEnumCode(hint string, domain []string) string {
